@@ -405,3 +405,102 @@ Proof.
   pose proof (div_le_mul _ _ _ NZ E) as M.
   rewrite take_some by (unfold len in M; lia). discriminate.
 Qed.
+
+(** ** C12 for BOOLEAN: model decoder and specification decoder read the same bits *)
+Definition bit_at (bs : list N) (i : nat) : N := (nth (Nat.div i 8) bs 0 / 2 ^ N.of_nat (Nat.modulo i 8)) mod 2.
+
+Lemma map_seq_shift {A} (f : nat -> A) a k n : map f (seq (a + k) n) = map (fun i => f (i + k)%nat) (seq a n).
+Proof.
+  revert a. induction n; intros a; [reflexivity|]. cbn [seq map]. f_equal. rewrite <- IHn. reflexivity.
+Qed.
+
+Lemma byte_bits_map k : forall b, byte_bits k b = map (fun i => (b / 2 ^ N.of_nat i) mod 2) (seq 0 k).
+Proof.
+  induction k; intros b; [reflexivity|]. cbn [byte_bits seq map]. f_equal.
+  - change 1 with (N.ones 1) at 1. rewrite N.land_ones. cbn [N.of_nat]. rewrite N.pow_0_r, N.div_1_r. reflexivity.
+  - rewrite IHk, <- seq_shift, map_map. apply map_ext. intros i.
+    rewrite N.shiftr_div_pow2, Nat2N.inj_succ, N.pow_succ_r', N.pow_1_r.
+    rewrite N.div_div by (try discriminate; apply N.pow_nonzero; discriminate). reflexivity.
+Qed.
+
+Lemma dec_bools_bits bs : forall n, (n <= 8 * length bs)%nat -> dec_bools bs n = Ok (map (bit_at bs) (seq 0 n)).
+Proof.
+  induction bs as [|b t IH]; intros n H.
+  - cbn [length] in H. assert (n = O) as -> by lia. reflexivity.
+  - destruct n as [|n]; [reflexivity|].
+    change (dec_bools (b :: t) (S n)) with
+      (match dec_bools t (S n - Nat.min 8 (S n)) with
+       | Ok r => Ok (byte_bits (Nat.min 8 (S n)) b ++ r) | Err c => Err c | Fault f => Fault f end).
+    set (k := Nat.min 8 (S n)). rewrite IH by (cbn [length] in H; lia).
+    f_equal. replace (S n) with (k + (S n - k))%nat at 2 by lia. rewrite seq_app, map_app. f_equal.
+    + rewrite byte_bits_map. apply map_ext_in. intros i Hi. apply in_seq in Hi. unfold bit_at.
+      rewrite Nat.div_small, Nat.mod_small by lia. reflexivity.
+    + destruct (Nat.le_gt_cases 8 (S n)) as [G|G].
+      * replace k with 8%nat by lia. change (0 + 8)%nat with (0 + 8)%nat. rewrite (map_seq_shift (bit_at (b :: t)) 0 8).
+        apply map_ext. intros i. unfold bit_at.
+        replace (i + 8)%nat with (i + 1 * 8)%nat by lia. rewrite Nat.div_add, Nat.mod_add by lia.
+        rewrite Nat.add_1_r. reflexivity.
+      * replace (S n - k)%nat with O by lia. reflexivity.
+Qed.
+
+Lemma all_some_map {A B} (f : A -> option B) (g : A -> B) l : (forall x, In x l -> f x = Some (g x)) ->
+  all_some (map f l) = Some (map g l).
+Proof.
+  induction l as [|x t IH]; intros H; [reflexivity|]. cbn [map all_some]. rewrite (H x (or_introl eq_refl)).
+  rewrite IH by (intros y Hy; apply H; right; exact Hy). reflexivity.
+Qed.
+
+Lemma spec_bool_bits bs n : (n <= 8 * length bs)%nat ->
+  spec_bool_dec n bs = Some (map (bit_at bs) (seq 0 n), skipn (Nat.div (n + 7) 8) bs).
+Proof.
+  intros H. unfold spec_bool_dec. rewrite (all_some_map (bit_of bs) (bit_at bs)); [reflexivity|].
+  intros i Hi. apply in_seq in Hi. unfold bit_of, bit_at.
+  assert (Hd : (Nat.div i 8 < length bs)%nat) by (apply Nat.div_lt_upper_bound; lia).
+  rewrite (nth_error_nth' bs 0 Hd). reflexivity.
+Qed.
+
+Lemma spec_bool_enough bs n vs rest : spec_bool_dec n bs = Some (vs, rest) -> (n <= 8 * length bs)%nat.
+Proof.
+  unfold spec_bool_dec. destruct n as [|n]; [lia|]. intros H.
+  destruct (all_some (map (bit_of bs) (seq 0 (S n)))) as [l|] eqn:A; [|discriminate].
+  assert (G : forall l0 (f : nat -> option N) r, all_some (map f l0) = Some r -> forall x, In x l0 -> f x <> None).
+  { clear. induction l0 as [|y t IH]; intros f r A x Hx; [contradiction|]. cbn [map all_some] in A.
+    destruct (f y) eqn:Fy; [|discriminate]. destruct (all_some (map f t)) eqn:At; [|discriminate].
+    destruct Hx as [->|Hx]; [rewrite Fy; discriminate|]. eapply IH; eassumption. }
+  pose proof (G _ _ _ A n ltac:(apply in_seq; lia)) as Hn. unfold bit_of in Hn.
+  destruct (nth_error bs (Nat.div n 8)) eqn:E; [|contradiction Hn; reflexivity].
+  assert (Nat.div n 8 < length bs)%nat by (apply nth_error_Some; rewrite E; discriminate).
+  pose proof (Nat.div_mod n 8 ltac:(lia)). pose proof (Nat.mod_upper_bound n 8 ltac:(lia)). lia.
+Qed.
+
+(** the decoder accepts every stream the reference decoder accepts *)
+Theorem plain_boolean_decode_accepts n bs vs rest : N.of_nat n < 2 ^ 63 -> spec_bool_dec n bs = Some (vs, rest) ->
+  plain_decode_boolean bs (N.of_nat n) = Ok (vs, (N.of_nat n + 7) / 8) /\ len bs = (N.of_nat n + 7) / 8 + len rest.
+Proof.
+  intros Hn H. pose proof (spec_bool_enough _ _ _ _ H) as En. rewrite (spec_bool_bits bs n En) in H. injection H as <- <-.
+  unfold plain_decode_boolean. rewrite size_t_small by lia.
+  assert (Ed : (N.of_nat n + 7) / 8 = N.of_nat (Nat.div (n + 7) 8)) by (rewrite Nat2N.inj_div, Nat2N.inj_add; reflexivity).
+  assert (Hle : (Nat.div (n + 7) 8 <= length bs)%nat).
+  { enough (Nat.div (n + 7) 8 < S (length bs))%nat by lia. apply Nat.div_lt_upper_bound; lia. }
+  assert (E : (len bs <? (N.of_nat n + 7) / 8) = false) by (apply N.ltb_ge; rewrite Ed; unfold len; lia).
+  rewrite E, Nat2N.id, dec_bools_bits by exact En. split; [reflexivity|].
+  change (fst (Nat.divmod (n + 7) 7 0 7)) with (Nat.div (n + 7) 8).
+  rewrite Ed. unfold len. rewrite skipn_length. remember (Nat.div (n + 7) 8) as q. lia.
+Qed.
+
+(** the encoder's output is read back by the reference decoder (as the truth values: any non-zero input byte is true) *)
+Theorem plain_boolean_encode_conforms vs : len vs < 2 ^ 63 ->
+  spec_bool_dec (length vs) (plain_encode_boolean vs) = Some (map truth vs, []).
+Proof.
+  intros Hl. pose proof (plain_roundtrip_boolean vs Hl) as R. unfold plain_decode_boolean in R.
+  rewrite size_t_small in R by lia. pose proof (enc_bools_length (length vs) vs (le_n _)) as EL.
+  fold (plain_encode_boolean vs) in EL. rewrite EL, N.ltb_irrefl, len_nat in R.
+  assert (En : (length vs <= 8 * length (plain_encode_boolean vs))%nat).
+  { unfold len in EL. pose proof (N.div_mod' (N.of_nat (length vs) + 7) 8). pose proof (N.mod_lt (N.of_nat (length vs) + 7) 8 ltac:(discriminate)). lia. }
+  rewrite dec_bools_bits in R by exact En. injection R as R.
+  rewrite spec_bool_bits by exact En. rewrite R. f_equal. f_equal.
+  apply skipn_all2. unfold len in EL.
+  assert (Ed : N.of_nat (Nat.div (length vs + 7) 8) = (N.of_nat (length vs) + 7) / 8) by (rewrite Nat2N.inj_div, Nat2N.inj_add; reflexivity).
+  change (fst (Nat.divmod (length vs + 7) 7 0 7)) with (Nat.div (length vs + 7) 8).
+  remember (Nat.div (length vs + 7) 8) as q. remember ((N.of_nat (length vs) + 7) / 8) as q'. lia.
+Qed.
